@@ -64,6 +64,25 @@ pub enum Then {
     Drop,
 }
 
+/// How the caller drives the iterator to exhaustion (after the `nexts` explicit calls): the property speaks
+/// of "iterating to exhaustion", which a caller does with a loop or with any consuming adaptor.
+#[derive(Clone, Copy, Debug, Serialize, Deserialize, PartialEq, Default)]
+pub enum Drain {
+    /// `while let Some(hit) = scanner.next()`
+    #[default]
+    Next,
+    /// `scanner.for_each(..)` (internal iteration: `Iterator::fold`)
+    ForEach,
+    /// `scanner.collect::<Vec<_>>()` (`size_hint` + `next` / `extend`)
+    Collect,
+    /// `scanner.count()`: only the number of hits is observable
+    Count,
+    /// `scanner.last()`: only one hit is observable
+    Last,
+    /// `scanner.nth(k)` (skips k hits), then a `next()` loop
+    Nth(usize),
+}
+
 #[derive(Clone, Debug, Serialize, Deserialize, PartialEq)]
 pub struct Sc {
     /// DNA text over ACGTN.
@@ -90,6 +109,16 @@ pub struct Sc {
     /// width (which may re-size the sequence's matrix under the live scanner), then keep iterating.
     #[serde(default)]
     pub py_poke_width: Option<usize>,
+    /// Style of the drain step (only with `then == Drain`).
+    #[serde(default)]
+    pub drain: Drain,
+    /// Python tier only: provenance of the sequence object. Before the scan the striped sequence is scored
+    /// with another motif of this width (so it already carries look-ahead rows), and, if `py_copy`, the scan
+    /// runs on `striped.copy()` of that object.
+    #[serde(default)]
+    pub py_pre_width: Option<usize>,
+    #[serde(default)]
+    pub py_copy: bool,
 }
 
 // --- reference model ---------------------------------------------------------------------------
@@ -510,6 +539,19 @@ pub fn gen_world(r: &mut Prng, idx: u64, prop: &str, forced: Option<(usize, usiz
         nexts,
         then,
         py_poke_width: None,
+        py_pre_width: None,
+        py_copy: false,
+        drain: if then == Then::Drain && prop != "C03" && r.chance(1, 3) {
+            match r.below(6) {
+                0 | 1 => Drain::ForEach,
+                2 => Drain::Collect,
+                3 => Drain::Count,
+                4 => Drain::Last,
+                _ => Drain::Nth(r.heavy(0, 6)),
+            }
+        } else {
+            Drain::Next
+        },
         raise_before_max: if then == Then::Max && nexts > 0 && r.chance(1, 4) {
             Some(*r.pick(&[ThresholdSpec::AtRank(0), ThresholdSpec::AtRank(1), ThresholdSpec::BetweenRanks(0), ThresholdSpec::AboveMax, ThresholdSpec::AtRank(3)]))
         } else {
@@ -721,6 +763,8 @@ impl ScanSim {
         let mut exhausted = false;
         let mut calls = 0usize;
         let mut buffered_across_calls = false;
+        // Drain::Nth: number of hits the caller asked the iterator to skip unseen
+        let mut skipped: Option<usize> = None;
         // every score yielded so far was bit-for-bit the reference value (evidence that the scanner's
         // notion of "the score" is the library's score_position, see `tie_confirmed` below)
         let scores_bit_exact = std::cell::Cell::new(true);
@@ -798,6 +842,135 @@ impl ScanSim {
                     buffered_across_calls = true;
                 }
                 match sc.then {
+                    Then::Drain if sc.drain != Drain::Next => {
+                        // consuming adaptors: the scanner is moved into the adaptor
+                        o.steps += 1;
+                        let mut skip_then_loop = None;
+                        match sc.drain {
+                            Drain::ForEach | Drain::Collect => {
+                                o.probe(if sc.drain == Drain::ForEach { "drained-by-for_each" } else { "drained-by-collect" });
+                                let style = sc.drain;
+                                let r = sut(move || {
+                                    cpu::with_host(sc.host, || {
+                                        let mut got: Vec<(usize, f32)> = Vec::new();
+                                        if style == Drain::ForEach {
+                                            scanner.for_each(|h| got.push((h.position(), h.score())));
+                                        } else {
+                                            got = scanner.collect::<Vec<_>>().into_iter().map(|h| (h.position(), h.score())).collect();
+                                        }
+                                        got
+                                    })
+                                });
+                                match r {
+                                    Err(p) => violation = Some(ctx.panic_violation(&p, &format!("{:?} after {} next() calls", sc.drain, calls), ovf_tag)),
+                                    Ok(got) => {
+                                        crate::ev!(o.trace, "{:?} -> {} hits", sc.drain, got.len());
+                                        if got.len() > budget {
+                                            violation = Some(Violation::new("no-progress", ctx.tags(ovf_tag), format!("{:?} produced {} hits on {} valid positions", sc.drain, got.len(), n_pos)));
+                                        } else {
+                                            for (pos, score) in got {
+                                                if let Some(v) = check_hit(pos, score, &mut seen, o) {
+                                                    violation = Some(v);
+                                                    break;
+                                                }
+                                            }
+                                            exhausted = true;
+                                        }
+                                    }
+                                }
+                            }
+                            Drain::Count | Drain::Last => {
+                                o.probe(if sc.drain == Drain::Count { "drained-by-count" } else { "drained-by-last" });
+                                let style = sc.drain;
+                                let r = sut(move || {
+                                    cpu::with_host(sc.host, || {
+                                        if style == Drain::Count {
+                                            (scanner.count(), None)
+                                        } else {
+                                            (0, Some(scanner.last().map(|h| (h.position(), h.score()))))
+                                        }
+                                    })
+                                });
+                                match r {
+                                    Err(p) => violation = Some(ctx.panic_violation(&p, &format!("{:?} after {} next() calls", sc.drain, calls), ovf_tag)),
+                                    Ok((n, last)) => {
+                                        crate::ev!(o.trace, "{:?} -> {} {:?}", sc.drain, n, last);
+                                        // what is still owed: unseen positions that must come (outside the band) and that may come
+                                        let owed_strict = expected.iter().filter(|&&i| !seen.contains(&i) && !band(i)).count();
+                                        let owed_max = (0..n_pos).filter(|&i| !seen.contains(&i) && (table.f32s[i] >= t || band(i))).count();
+                                        match last {
+                                            None => {
+                                                if n < owed_strict || n > owed_max {
+                                                    violation = Some(Violation::new(
+                                                        if n < owed_strict { "missing-hit" } else { "spurious-hit" },
+                                                        ctx.tags("count"),
+                                                        format!("count() after {} next() calls returned {} but {} positions at or above the threshold {:e} had not been returned yet", calls, n, owed_strict, t),
+                                                    ));
+                                                }
+                                            }
+                                            Some(None) => {
+                                                if owed_strict > 0 {
+                                                    violation = Some(Violation::new("missing-hit", ctx.tags("last"), format!("last() after {} next() calls returned None but {} positions at or above the threshold {:e} had not been returned yet", calls, owed_strict, t)));
+                                                }
+                                            }
+                                            Some(Some((pos, score))) => {
+                                                if let Some(v) = check_hit(pos, score, &mut seen, o) {
+                                                    violation = Some(v);
+                                                }
+                                            }
+                                        }
+                                    }
+                                }
+                            }
+                            Drain::Nth(k) => {
+                                o.probe("hits-skipped-with-nth");
+                                let r = sut(|| cpu::with_host(sc.host, || scanner.nth(k).map(|h| (h.position(), h.score()))));
+                                match r {
+                                    Err(p) => violation = Some(ctx.panic_violation(&p, &format!("nth({}) after {} next() calls", k, calls), ovf_tag)),
+                                    Ok(None) => {
+                                        crate::ev!(o.trace, "nth({}) -> None", k);
+                                        let owed_strict = expected.iter().filter(|&&i| !seen.contains(&i) && !band(i)).count();
+                                        if owed_strict > k {
+                                            violation = Some(Violation::new("missing-hit", ctx.tags("nth"), format!("nth({}) after {} next() calls returned None but {} positions at or above the threshold {:e} had not been returned yet", k, calls, owed_strict, t)));
+                                        }
+                                    }
+                                    Ok(Some((pos, score))) => {
+                                        crate::ev!(o.trace, "nth({}) -> {} {:e}", k, pos, score);
+                                        if let Some(v) = check_hit(pos, score, &mut seen, o) {
+                                            violation = Some(v);
+                                        } else {
+                                            skipped = Some(k);
+                                            skip_then_loop = Some(scanner);
+                                        }
+                                    }
+                                }
+                            }
+                            Drain::Next => unreachable!(),
+                        }
+                        if let Some(mut scanner) = skip_then_loop {
+                            while !exhausted && violation.is_none() {
+                                calls += 1;
+                                o.steps += 1;
+                                if calls > budget + sc.nexts {
+                                    violation = Some(Violation::new("no-progress", ctx.tags(ovf_tag), format!("{} calls of next() on {} valid positions without reaching None", calls, n_pos)));
+                                    break;
+                                }
+                                match sut(|| cpu::with_host(sc.host, || scanner.next())) {
+                                    Err(p) => violation = Some(ctx.panic_violation(&p, &format!("Scanner::next() call #{}", calls), ovf_tag)),
+                                    Ok(None) => exhausted = true,
+                                    Ok(Some(h)) => {
+                                        crate::ev!(o.trace, "next -> {} {:e}", h.position(), h.score());
+                                        if let Some(v) = check_hit(h.position(), h.score(), &mut seen, o) {
+                                            violation = Some(v);
+                                        }
+                                    }
+                                }
+                            }
+                            if let Err(p) = sut(move || drop(scanner)) {
+                                violation.get_or_insert(ctx.panic_violation(&p, "drop(Scanner)", ovf_tag));
+                            }
+                        }
+                    }
                     Then::Drain => {
                         while !exhausted {
                             calls += 1;
@@ -883,7 +1056,19 @@ impl ScanSim {
         };
 
         // --- history checks ---
-        if exhausted && sc.then != Then::Max {
+        if let (true, Some(k)) = (exhausted && sc.then == Then::Drain, skipped) {
+            // k hits were skipped unseen: exactly k of the owed positions may be absent
+            let missing_strict = expected.iter().filter(|&&i| !seen.contains(&i) && !band(i)).count();
+            let missing_max = (0..n_pos).filter(|&i| !seen.contains(&i) && (table.f32s[i] >= t || band(i))).count();
+            if missing_strict > k || missing_max < k {
+                o.violate(Violation::new(
+                    if missing_strict > k { "missing-hit" } else { "spurious-hit" },
+                    ctx.tags("nth"),
+                    format!("nth({}) skipped {} hits, yet {} positions at or above the threshold {:e} (at most {}) were never returned", k, k, missing_strict, t, missing_max),
+                ));
+                return;
+            }
+        } else if exhausted && sc.then != Then::Max {
             let mut tie_checks = 0;
             for &i in &expected {
                 if !seen.contains(&i) {
@@ -1038,6 +1223,8 @@ impl ScanSim {
             ThresholdSpec::AboveMax => "above-max",
         };
         let shape = match (sc.nexts.min(2), sc.then) {
+            (0, Then::Drain) if sc.drain != Drain::Next => "adaptor",
+            (_, Then::Drain) if sc.drain != Drain::Next => "next+adaptor",
             (0, Then::Drain) => "drain",
             (_, Then::Drain) => "next+drain",
             (0, Then::Max) => "max",
@@ -1135,6 +1322,24 @@ impl Sim for ScanSim {
             s.raise_before_max = None;
             out.push(s);
         }
+        match sc.drain {
+            Drain::Next => {}
+            Drain::Nth(k) => {
+                let mut s = sc.clone();
+                s.drain = Drain::Next;
+                out.push(s);
+                if k > 0 {
+                    let mut s = sc.clone();
+                    s.drain = Drain::Nth(k / 2);
+                    out.push(s);
+                }
+            }
+            _ => {
+                let mut s = sc.clone();
+                s.drain = Drain::Next;
+                out.push(s);
+            }
+        }
         if sc.nexts > 0 {
             let mut s = sc.clone();
             s.nexts = 0;
@@ -1229,12 +1434,13 @@ impl Sim for ScanSim {
         let common = "Cases: worlds made of a DNA sequence (uniform / skewed / wildcard runs / planted consensus and near-consensus words), a scoring matrix (library conversions from counts with uniform or wildcard-bearing background, direct finite values, exact-arithmetic k/8 entries, degenerate constant rows), width 1..40, length classes (L<M, L=M, 0, multiples of 32, row count within M of a block multiple, up to 64 000), threshold classes (below minimum, -inf, on an attained score, between two scores, above maximum, value), block size classes (1,2,3,R-1,R,R+1,R+W-1,R+W,256,1e6,random), simulated host CPU (generic / sse2 / avx2), allocator policy, spare look-ahead rows, and a caller program. Distinct = distinct tuples (host, block-size class, R mod B class, block boundary inside sequence rows / at R / inside wrap rows, length class, threshold class, program shape). Non-trivial = at least one expected hit, or L < M.";
         match prop {
             "C03" => format!("{} Program: k next() calls then max().", common),
-            _ => format!("{} Program: k next() calls then drain / max / drop.", common),
+            _ => format!("{} Program: k next() calls then drain / max / drop; the drain step is a next() loop or, one time in three, a consuming adaptor (for_each, collect, count, last, nth(k) then a loop).", common),
         }
     }
 
     fn required_probes(_prop: &str, _tier: Tier) -> Vec<&'static str> {
         vec!["block-boundary-inside-wrap-rows", "host=generic", "host=sse2"]
+        // (the adaptor probes are C02-only and therefore not required here: C03 shares this list)
     }
 
     fn assumptions(_prop: &str) -> Vec<String> {
